@@ -701,6 +701,15 @@ def o24(ctx):
     ctx.count(1)
     if not stored_back_over_list(fn, par, loop):
         ctx.finding(RD, ap, "the numeric conversion must be applied to every block and stored back (frames[i] = ...)", ap, m)
+    # ... on every way out: no `return` hands out tables before the conversion has run (e.g. the one-block form read(path, data_id=k))
+    from sa.dataflow import _own_nodes
+    anchor = loop if loop is not None else par
+    early = [r_ for r_ in _own_nodes(fn) if isinstance(r_, ast.Return) and r_.value is not None and r_.lineno < anchor.lineno
+             and not (isinstance(r_.value, ast.Constant) and r_.value.value is None)]
+    ctx.count(1, {"returns of Starfile.read before the conversion": len(early)})
+    for r_ in early:
+        ctx.finding(RD, r_, f"`{norm_text(r_)[:80]}` leaves Starfile.read before the per-column numeric conversion has run: the table(s) handed out on this path "
+                    "hold every number as text ('3752' instead of 3752), while the same block read without this path is numeric", r_, m)
     # parse_rows: the table carries the parsed labels as columns even when it has no rows
     q = "starfileio.Token.parse_rows"
     mp, fp = ctx.prog.func(q)
@@ -731,4 +740,4 @@ def _obligations():
 
 
 def obligations():
-    return _obligations() + [labels_obligation("C02"), selectors_obligation("C02"), mutations_obligation("C02"), effects_obligation("C02"), plumbing_obligation("C02"), overrides_obligation("C02"), options_obligation("C02"), handlers_obligation("C02")]
+    return _obligations() + [labels_obligation("C02"), selectors_obligation("C02"), mutations_obligation("C02"), loopstate_obligation("C02"), effects_obligation("C02"), plumbing_obligation("C02"), overrides_obligation("C02"), options_obligation("C02"), handlers_obligation("C02")]
